@@ -102,6 +102,64 @@ def gen_body(rng, nend, nreg, depth, used):
     return ",".join(acts), "; ".join(term)
 
 
+def expected_bytes(body):
+    """bytes of every message a scripted send produces, in completion order (inner messages first); mirrors the
+    serialiser-program semantics: each message numbers its OWN attachments from 0"""
+    import struct
+
+    def parse(s, i=0):
+        acts = []
+        while i < len(s):
+            c = s[i]
+            i += 1
+            if c == ",":
+                continue
+            if c == ")":
+                return acts, i
+            if c in "ef":
+                acts.append((c,))
+            elif c in "trg":
+                j = i
+                while j < len(s) and s[j].isdigit():
+                    j += 1
+                acts.append((c, int(s[i:j])))
+                i = j
+            elif c in "NP":
+                inner, i = parse(s, i + 1)
+                acts.append((c, inner))
+        return acts, i
+
+    out = []
+
+    def ser(acts):
+        bs, nch, nrg = b"", 0, 0
+        for a in acts:
+            if a[0] == "e":
+                bs += b"\x07"
+            elif a[0] == "f":
+                return None
+            elif a[0] in "tr":
+                bs += struct.pack("<Q", nch)
+                nch += 1
+            elif a[0] == "g":
+                bs += struct.pack("<Q", nrg)
+                nrg += 1
+            else:
+                inner = ser(a[1])
+                if inner is not None:
+                    out.append(inner)
+                    bs += b"\x01"
+                elif a[0] == "P":
+                    return None
+                else:
+                    bs += b"\x00"
+        return bs
+    top = ser(parse(body)[0])
+    if top is not None:
+        out.append(top)
+    return [b.hex() for b in out]
+
+
 def finalize(body, term, kinds):
     import re
     body = re.sub(r"x(\d+)", lambda m: ("t" if kinds[int(m.group(1))] == "t" else "r") + m.group(1), body)
@@ -162,6 +220,12 @@ def check_C14(chk):
             why = "descriptor count changed: %d -> %d" % (r["fds_before"], r["fds_after"])
         if why:
             fails.append((c, r, why))
+        # the attachment references written into each message must be positions in THAT message's own lists
+        want = (expected_bytes(c["pre"][0]) if c["pre"] else []) + expected_bytes(c["body"]) + ["0707"]
+        have = [m.get("data") for m in res["msgs"]]
+        if have != want and not why:
+            fails.append((c, r, "a message's bytes (attachment indices, nested-send results) are not those of a self-contained send: expected %s, received %s"
+                          % (want, have)))
         obs = "; ".join("([%s], %d)" % ("; ".join(m["chans"]), m["nregions"]) for m in res["msgs"])
         if "?" in obs:
             fails.append((c, r, "a received attachment is not connected to the endpoint that was embedded: %s" % obs))
